@@ -51,7 +51,14 @@ pub fn run(ctx: &Ctx) {
         return;
     };
     // what the shell itself inherits from this harness
-    let base = std::process::Command::new("/bin/cat").arg("/proc/self/status").env_clear().stdin(std::process::Stdio::null()).output();
+    // (every child of this part starts with default dispositions and an empty mask - see
+    // util::start_with_default_signals - so `base` is what such a start looks like from inside)
+    let base = {
+        let mut c = std::process::Command::new("/bin/cat");
+        c.arg("/proc/self/status").env_clear().stdin(std::process::Stdio::null());
+        crate::util::start_with_default_signals(&mut c);
+        c.output()
+    };
     let Some(base) = base.ok().map(|o| parse(&format!("@base\n{}", String::from_utf8_lossy(&o.stdout)))).and_then(|mut v| v.pop()).and_then(|(_, mut o)| o.pop()) else {
         ctx.inconclusive.fetch_add(1, std::sync::atomic::Ordering::Relaxed);
         return;
@@ -117,6 +124,7 @@ pub fn run(ctx: &Ctx) {
             let script = format!("{trap}\n{}\n/bin/echo @obs\n{}\n", warmups[w], form.replace("OBS", OBS));
             let mut cmd = std::process::Command::new(stock);
             cmd.args(margs).env_clear().env("PATH", "/bin:/usr/bin").env("LANG", "C");
+            crate::util::start_with_default_signals(&mut cmd);
             let out = crate::util::run_child(cmd, Some(script.clone().into_bytes()), 60);
             let Ok(out) = out else {
                 ctx.inconclusive.fetch_add(1, std::sync::atomic::Ordering::Relaxed);
@@ -192,6 +200,7 @@ pub fn run(ctx: &Ctx) {
             let script = format!("{pre}exec /nonexistent/cmd\nkill -s {sig} $$\n/bin/echo @survived\n");
             let mut cmd = std::process::Command::new(stock);
             cmd.arg("-i").env_clear().env("PATH", "/bin:/usr/bin").env("LANG", "C");
+            crate::util::start_with_default_signals(&mut cmd);
             let out = crate::util::run_child(cmd, Some(script.clone().into_bytes()), 60);
             let Ok(out) = out else {
                 ctx.inconclusive.fetch_add(1, std::sync::atomic::Ordering::Relaxed);
